@@ -58,8 +58,9 @@ inductive Val
   | intEnum (cls : Nat) (v : Int)                     -- member of an `IntEnum` (compares as its int value)
   | cls (id : Nat) (exc warn : Bool)                  -- a class; subclass of Exception / of Warning?
   | coll (k : CollKind) (items : List Item)           -- tuple / list / frozenset / set / str (items = characters)
-  | fdict (f c : Ov) (rest : Nat) (hashable : Bool)   -- FrozenDict: float entry, complex entry, other entries (eq. class)
-  | dict (tag : Nat)                                  -- plain dict
+  | fdict (f c : Ov) (rest : Nat) (hashable : Bool) (keysIdent : Bool)
+      -- FrozenDict: float entry, complex entry, other entries (eq. class), hashable?, every key an identifier str?
+  | dict (tag : Nat) (keysIdent : Bool)                -- plain dict (unhashable); every key an identifier str?
   | obj (id : Nat)                                    -- any other hashable object (identity equality)
 deriving DecidableEq, Repr, Inhabited
 
@@ -77,8 +78,8 @@ def pyEq (a b : Val) : Bool := canon a == canon b
 def hashable : Val → Bool
   | .coll .list _ => false
   | .coll .set _ => false
-  | .dict _ => false
-  | .fdict _ _ _ h => h
+  | .dict _ _ => false
+  | .fdict _ _ _ h _ => h
   | _ => true
 
 /-- tuple equality: same length, `==` elementwise -/
@@ -108,7 +109,9 @@ def validKind : Kind → Val → Bool
   | .enum c, .enum c' _ => c == c'
   | .enum c, .intEnum c' _ => c == c'
   | .identColl, .coll _ items => items.all Item.isIdent
-  | .frozenDict, .fdict _ _ _ _ => true
+  | .identColl, .fdict _ _ _ _ ki => ki      -- a mapping is a Collection of its keys
+  | .identColl, .dict _ ki => ki
+  | .frozenDict, .fdict _ _ _ _ _ => true
   | .excType, .cls _ e _ => e
   | .optExcType, .none => true
   | .optExcType, .cls _ e _ => e
@@ -210,9 +213,9 @@ def Ov.conflict : Ov → Bool
 def towerStep (a : Args) : Except Result Args :=
   if a "is_pep484_tower" = .bool true then
     match a "hint_overrides" with
-    | .fdict f c r h =>
+    | .fdict f c r h _ =>
       if f.conflict || c.conflict then .error .paramExc
-      else .ok (upd a "hint_overrides" (.fdict .tower .tower r h))
+      else .ok (upd a "hint_overrides" (.fdict .tower .tower r h false))   -- the merged keys include `float`
     | _ => .ok a
   else .ok a
 
